@@ -44,6 +44,7 @@ func checkC01(c *Ctx, r *Report) {
 		"R2 (memory backend) the stored byte slice is assigned once, from a function-local buffer, and afterwards only wrapped by bytes.NewReader (read-only views)",
 		"R3 nothing is published unless the source reader was copied without error; the recorded Size is the byte count returned by that very copy",
 		"R4 a failed store never touches the published entry: error exits remove only the temp file, never the published path, and delete no map entry",
+		"R6 ETag / Last-Modified are set on a response built from the store only under a test that the stored value is non-empty / non-zero (what is stored derives from the origin's headers only: C06.R1), so no validator is invented",
 		"R5 served headers/validators and the served body come from the same Entry object; followers re-open their own handle (C05.R2); range slice/headers agree (C07.R2)",
 	}
 	r.NotDec = []string{"byte-for-byte equality of served bodies", "that a request starting after a replace sees the new body as a run-time fact (relies on map + lock semantics, C12.R4 / C14)", "transport-level truncation", "crash points of the file system (rename atomicity is assumed)"}
@@ -292,6 +293,7 @@ func checkC01(c *Ctx, r *Report) {
 			r.Check(must["S"], "C01.R5", name+": lookup under the key lock", c.Pos(f.Pos()), "S held", "lookup without the key lock")
 		}
 	}
+	checkServedValidators(c, r, li)
 }
 
 // checkSizeIsCount: the value stored into EntryMetadata.Size in f is result #0 of copyCall.
@@ -311,6 +313,53 @@ func checkSizeIsCount(c *Ctx, r *Report, f *ssa.Function, copyCall *ssa.Call, ru
 		}
 	})
 	r.Check(ok, rule, which+": recorded Size is the number of bytes copied", c.InstrPos(copyCall), "Size = count returned by the copy", "the Size recorded with the entry is not the byte count of the copy that produced the body: Content-Length / range validation disagree with the stored bytes")
+}
+
+// checkServedValidators (C01.R6): a stored response is delivered with the validators the origin
+// sent with that body and with no others. Wherever package proxy sets ETag / Last-Modified on a
+// response from the stored object's fields, the site is reachable only when that field is non-empty /
+// non-zero (the zero value means "the origin sent none"), directly or through the caller's context.
+func checkServedValidators(c *Ctx, r *Report, li *LockInfo) {
+	n := 0
+	for _, f := range li.Fns {
+		if originPkgPath(f) != proxyPkg {
+			continue
+		}
+		eachCall(f, func(call ssa.CallInstruction, nme string) {
+			if nme != "(reservoir/proxy/responder.Responder).SetHeader" && nme != "(reservoir/proxy/responder.Responder).AddHeader" {
+				return
+			}
+			args := callArgs(call)
+			name, isC := constString(args[1])
+			if !isC || (name != "ETag" && name != "Last-Modified") {
+				return
+			}
+			field := map[string]string{"ETag": "ETag", "Last-Modified": "LastModified"}[name]
+			fromStored := derivesFrom(args[2], func(v ssa.Value) bool {
+				_, pth := fieldPath(v)
+				return len(pth) >= 2 && pth[len(pth)-1] == field && pth[len(pth)-2] == "Object"
+			})
+			if !fromStored {
+				return
+			}
+			n++
+			fs := factStrsCtx(li, f, call.(ssa.Instruction))
+			ok := false
+			for k := range fs {
+				if !strings.Contains(k, ".Object."+field) {
+					continue
+				}
+				switch {
+				case field == "ETag" && (strings.HasSuffix(k, `==""=false`) || strings.HasSuffix(k, `!=""=true`)):
+					ok = true
+				case field == "LastModified" && strings.HasPrefix(k, "IsZero(") && strings.HasSuffix(k, "=false"):
+					ok = true
+				}
+			}
+			r.Check(ok, "C01.R6", fnKey(f)+": "+name+" is delivered only if the origin sent one", c.InstrPos(call), "guarded by the stored "+field+" being non-empty / non-zero", "the stored response is delivered with a "+name+" header even when the origin sent none (empty / zero stored value): the client receives a validator the origin never issued")
+		})
+	}
+	r.Floor("C01.R6", n, 2, "validator headers set from the stored object")
 }
 
 func checkC11(c *Ctx, r *Report) {
